@@ -191,19 +191,20 @@ class World:
                 'svc_restarts', 'stale_requests_reclaimed',
                 'starts_ok', 'starts_failed',
                 'finishes_complete', 'finishes_repeated',
+                'finish_failed_then_retried',
                 'finish_with_others_registered', 'finish_removed_entries',
                 'port_collisions', 'port_reused_after_death', 'ip_reused',
                 'drain_checks', 'same_instance_overlap',
                 'order_permuted_listings', 'layout_with_symlinked_dirs'), 0)
             self.faults = dict.fromkeys((
                 'start_killed', 'finish_killed', 'finish_killed_then_repeated',
-                'command_failed', 'eaddrinuse'), 0)
+                'command_failed', 'eaddrinuse', 'resolver_failed'), 0)
         # -- fakes
         self.netdev = netshims.FakeNetdev(seam, subproc, EXT_DEV)
         self.ipt = netshims.FakeIptables(seam, subproc, real_iptables)
         self.ipt.host_init(HOST_SETS)
         self.newnet = netshims.FakeNewnet(seam)
-        self.sock = netshims.FakeSocketMod(DNS)
+        self.sock = netshims.FakeSocketMod(DNS, seam)
         self.rnd = netshims.FakeRandom()
         self.rnd.hot = config.get('hot_ports', 6)
         self.pm = netshims.FakePluginManager()
@@ -313,12 +314,17 @@ class World:
                         if fault else None)
         if op.get('ord'):
             self.probes['order_permuted_listings'] += 1
+        self.sock.failing = set(op.get('resolve_fault') or ())
+        self.sock.resolve_failures = 0
         try:
             getattr(self, 'op_' + op['op'])(op)
         finally:
+            self.sock.failing = set()
+            if self.sock.resolve_failures:
+                self._bump(self.faults, 'resolver_failed')
             if self.seam.stat_faults_fired:
                 self._bump(self.faults, 'lookup_failed')
-            elif self.seam.failed:
+            elif self.seam.failed and not self.sock.resolve_failures:
                 self.faults['command_failed'] += 1
             if self.seam.failed or self.seam.crashed:
                 self.faulted = True
@@ -1358,7 +1364,11 @@ class World:
             cont['finish_killed'] = True
             self.log.ev('c_finish', name, 'killed', self.seam.steps)
         except Exception as err:  # pylint: disable=broad-except
+            # a finish that fails is a legitimately failed operation: it is
+            # retried later (the leftover clause applies to the finish that
+            # succeeds)
             self.log.ev('c_finish', name, 'raised', type(err).__name__)
+            cont['finish_failed'] = True
             if not self.seam.failed:
                 self.fail('C16:finish-raised:%s' % type(err).__name__,
                           'finish of %s raised %r without an injected fault '
@@ -1389,6 +1399,9 @@ class World:
             if cont.get('finish_killed'):
                 self.faults['finish_killed_then_repeated'] += 1
                 cont['finish_killed'] = False
+            if cont.get('finish_failed'):
+                self.probes['finish_failed_then_retried'] += 1
+                cont['finish_failed'] = False
             self.probes['finishes_complete'] += 1
             cont['finished'] += 1
 
@@ -2014,6 +2027,7 @@ class Generator:
                12)
         op = {'name': name, 'pid': self.pids,
               'rkey': self.rng.randint(1, 1 << 30), 'ord': self.order()}
+        self._resolve_fault(op, man)
         return self._faults(op, est, self.config['p_start_kill'],
                             self.config['p_cmd_fail'])
 
@@ -2046,6 +2060,7 @@ class Generator:
             name = self.rng.choice(names)
         cont = world.cont[name]
         op = {'name': name, 'ord': self.order()}
+        self._resolve_fault(op, cont['manifest'])
         if cont['state'] == 'started' and not cont['finished']:
             total = self._finish_steps(cont)
             if self.frng.random() < self.config['p_finish_kill']:
@@ -2061,6 +2076,15 @@ class Generator:
                6)
         return self._faults(op, est, self.config['p_finish_kill'],
                             self.config['p_cmd_fail'])
+
+    def _resolve_fault(self, op, man):
+        """The resolver fails (socket.gaierror) for some of the passthrough
+        hosts while this op runs."""
+        hosts = sorted(set(man['passthrough']))
+        if hosts and not man['shared_network'] and \
+                self.frng.random() < self.config.get('p_resolve_fault', 0.0):
+            k = self.frng.randint(1, len(hosts))
+            op['resolve_fault'] = sorted(self.frng.sample(hosts, k))
 
     def g_c_remove(self, world):
         names = sorted(n for n, c in world.cont.items()
@@ -2113,6 +2137,7 @@ def make_config(prop, tier, rng):
             layout[key] = rng.random() < 0.4
     cfg['layout'] = layout
     cfg['p_stat_fault'] = rng.choice([0.0, 0.1, 0.25])
+    cfg['p_resolve_fault'] = rng.choice([0.0, 0.15, 0.35])
     # further VipMgr pools (other, disjoint CIDRs) on the same directory
     extra = rng.choice([[], [], ['10.21.0.0/30'], ['10.21.0.0/29'],
                         ['10.21.0.0/30', '10.22.0.0/29']])
@@ -2185,7 +2210,9 @@ class NetSim(enginemod.Engine):
         'flush_cnt_conntrack_table recorded (can fail)',
         'treadmill.newnet.create_newnet: recorded',
         'socket in treadmill.runtime: host port table with EADDRINUSE; '
-        'socket.gethostbyname: fixed table',
+        'socket.gethostbyname: fixed table; hosts named in the op\'s '
+        '"resolve_fault" raise socket.gaierror while that op (a start or a '
+        'finish) runs',
         'random in treadmill.runtime: permutation of the port pool decided '
         'by the op (a few hot ports first)',
         'plugin_manager.load(firewall plugin): raises KeyError (the '
@@ -2273,7 +2300,10 @@ class NetSim(enginemod.Engine):
             ]
         else:
             out += [
-                'DNS answers are stable; the firewall plug-in is absent',
+                'DNS answers are stable (a name resolves to the same address '
+                'or, under an injected resolver fault, not at all); a finish '
+                'that raises is a failed operation and is retried; the '
+                'firewall plug-in is absent',
                 'the network service is up and fault-free during C16 runs',
                 'a finished container is one whose _cleanup_network returned; '
                 'the vip and the prod/non-prod ip-set entry are compared once '
